@@ -9,7 +9,7 @@ from .values import *
 
 MODELS = {}
 STOP_PKGS = ['fmt', 'reflect', 'os', 'time', 'log', 'sync', 'sync/atomic', 'runtime', 'unsafe', 'internal/bytealg',
-             'unicode', 'syscall', 'io/fs', 'math/rand', 'encoding/json', 'internal/reflectlite',
+             'unicode', 'syscall', 'math/rand', 'encoding/json', 'internal/reflectlite',
              'golang.org/x/crypto/openpgp', 'golang.org/x/crypto/openpgp/clearsign', 'golang.org/x/crypto/openpgp/armor',
              'golang.org/x/crypto/openpgp/packet', 'golang.org/x/crypto/openpgp/errors',
              'crypto/md5', 'crypto/sha1', 'crypto/sha256', 'crypto/sha512', 'crypto', 'hash',
